@@ -437,3 +437,5 @@ def run(repo, chk):
     chk.count("functions", 14)
     from .shared import activation_integrity_obligations
     activation_integrity_obligations(repo, chk, "R12.2", "probes with value conditions")
+    from .shared import routing_obligations
+    routing_obligations(repo, chk, "R12.2", "offer")
